@@ -398,18 +398,34 @@ fn complete_records(seed: &Seed, d: &TailDamage) -> (usize, usize, bool) {
 }
 
 fn tail_vio(rep: &Reporter, key: &str, what: String, seed: &Seed, d: &TailDamage, trunc: bool) -> Violation {
+    let rbuf = TAIL_RBUF.with(|c| c.get());
     Violation {
         prop: rep.prop.clone(),
         key: key.to_string(),
-        what: format!("{} | damage {:?} truncate_incomplete_record={} | seed [{}] cfg {}", what, d, trunc, hist_short(&seed.hist), seed.cfg.short()),
-        replay: json!({"engine":"imagex-tail","seed": seed_json(seed), "damage": format!("{:?}", d), "truncate": trunc}),
+        what: format!("{} | damage {:?} truncate_incomplete_record={} read_buffer_size={:?} | seed [{}] cfg {}", what, d, trunc, rbuf, hist_short(&seed.hist), seed.cfg.short()),
+        replay: json!({"engine":"imagex-tail","seed": seed_json(seed), "damage": format!("{:?}", d), "truncate": trunc, "read_buf": rbuf}),
     }
+}
+
+thread_local! {
+    /// read buffer size the current tail check recovers with (None: default)
+    static TAIL_RBUF: std::cell::Cell<Option<usize>> = const { std::cell::Cell::new(None) };
+}
+
+fn check_tail_rbuf(rep: &Reporter, seed: &Seed, d: &TailDamage, trunc: bool, rbuf: Option<usize>, st: &ImgStats) {
+    TAIL_RBUF.with(|c| c.set(rbuf));
+    check_tail(rep, seed, d, trunc, st);
+    TAIL_RBUF.with(|c| c.set(None));
 }
 
 fn check_tail(rep: &Reporter, seed: &Seed, d: &TailDamage, trunc: bool, st: &ImgStats) {
     let files = damaged(seed, d);
     let mut cfg = seed.cfg;
     cfg.truncate_incomplete = Some(trunc);
+    let rbuf = TAIL_RBUF.with(|c| c.get());
+    if rbuf.is_some() {
+        cfg = cfg.with_read_buf(rbuf);
+    }
     let (k, keep, clean) = complete_records(seed, d);
     let expect = {
         let n = seed.chunks.len();
@@ -424,6 +440,7 @@ fn check_tail(rep: &Reporter, seed: &Seed, d: &TailDamage, trunc: bool, st: &Img
         h.add(&f.1);
     }
     h.add_u64(trunc as u64);
+    h.add_u64(rbuf.map(|x| x as u64 + 1).unwrap_or(0));
     st.distinct.lock().unwrap().insert(h.0);
     let (run, usable_err) = open_image(&files, &cfg, trunc || clean);
     let zero_complete = k == 0;
@@ -521,13 +538,21 @@ fn check_tail(rep: &Reporter, seed: &Seed, d: &TailDamage, trunc: bool, st: &Img
 pub fn run_c10(rep: &Reporter, thorough: bool) -> Value {
     let seeds = gen_seeds(if thorough { 120 } else { 16 }, if thorough { 5 } else { 4 });
     let st = ImgStats::new();
-    let mut work: Vec<(usize, TailDamage, bool)> = vec![];
+    let mut work: Vec<(usize, TailDamage, bool, Option<usize>)> = vec![];
+    // recovery under small read buffers: every cut, and zero tails of a few lengths
+    let small_bufs: Vec<usize> = if thorough { vec![1, 16, 64] } else { vec![16] };
     for (si, s) in seeds.iter().enumerate() {
         let last = s.files.last().unwrap();
         let len = last.1.len();
         for cut in 0..=len {
             for t in [true, false] {
-                work.push((si, TailDamage::Cut(cut), t));
+                work.push((si, TailDamage::Cut(cut), t, None));
+            }
+            for rb in &small_bufs {
+                work.push((si, TailDamage::Cut(cut), true, Some(*rb)));
+                if thorough {
+                    work.push((si, TailDamage::Cut(cut), false, Some(*rb)));
+                }
             }
         }
         let c = s.chunks.last().unwrap();
@@ -547,7 +572,12 @@ pub fn run_c10(rep: &Reporter, thorough: bool) -> Value {
                     if !t && !(zl <= 2 || zl == 28 || zl == 64 || zl == 1024) {
                         continue;
                     }
-                    work.push((si, TailDamage::Zeros { boundary: bd, len: zl }, t));
+                    work.push((si, TailDamage::Zeros { boundary: bd, len: zl }, t, None));
+                    if zl == 1 || zl == 15 || zl == 16 || zl == 17 || zl == 28 || zl == 1025 {
+                        for rb in &small_bufs {
+                            work.push((si, TailDamage::Zeros { boundary: bd, len: zl }, t, Some(*rb)));
+                        }
+                    }
                 }
             }
         }
@@ -561,8 +591,8 @@ pub fn run_c10(rep: &Reporter, thorough: bool) -> Value {
                 if i >= work.len() {
                     break;
                 }
-                let (si, d, t) = &work[i];
-                check_tail(rep, &seeds[*si], d, *t, &st);
+                let (si, d, t, rb) = &work[i];
+                check_tail_rbuf(rep, &seeds[*si], d, *t, *rb, &st);
             });
         }
     });
@@ -576,6 +606,8 @@ pub fn run_c10(rep: &Reporter, thorough: bool) -> Value {
         "seed_images": seeds.len(),
         "seed_layouts": seeds.iter().map(|s| s.sig.clone()).collect::<Vec<_>>(),
         "outcomes": *st.outcomes.lock().unwrap(),
+        "recoveries_under_small_read_buffers": work.iter().filter(|w| w.3.is_some()).count(),
+        "small_read_buffer_sizes": small_bufs,
         "explanation": "for every seed image (final directory of a real run, model journal attached): the newest chunk cut at EVERY byte position 0..=len and zero tails from EVERY record boundary (incl. 0) with lengths 1..64,1023,1024,1025,33792,65535,65536,65537,131077, each under truncate_incomplete_record true (all) and false (all cuts, sampled zero lengths); every damaged image is opened by the real RaftLog::open and compared with the state denoted by exactly the completely present records; then writes+flush and a second restart. 'states' = distinct damaged images, 'transitions' = recoveries executed.",
     })
 }
@@ -584,22 +616,23 @@ pub fn run_c10(rep: &Reporter, thorough: bool) -> Value {
 // C09
 // ---------------------------------------------------------------------------
 
-fn mut_vio(rep: &Reporter, key: &str, what: String, seed: &Seed, file: usize, pos: usize, val: u8) -> Violation {
+fn mut_vio(rep: &Reporter, key: &str, what: String, seed: &Seed, file: usize, pos: usize, val: u8, rbuf: Option<usize>) -> Violation {
     Violation {
         prop: rep.prop.clone(),
         key: key.to_string(),
         what: format!(
-            "{} | byte {} of {} ({} of {} files) := 0x{:02x} | seed [{}] cfg {}",
+            "{} | byte {} of {} ({} of {} files) := 0x{:02x} | opened with read_buffer_size {:?} | seed [{}] cfg {}",
             what,
             pos,
             seed.files[file].0,
             file + 1,
             seed.files.len(),
             val,
+            rbuf,
             hist_short(&seed.hist),
             seed.cfg.short()
         ),
-        replay: json!({"engine":"imagex-mutate","seed": seed_json(seed), "file": file, "pos": pos, "val": val}),
+        replay: json!({"engine":"imagex-mutate","seed": seed_json(seed), "file": file, "pos": pos, "val": val, "read_buf": rbuf}),
     }
 }
 
@@ -619,17 +652,18 @@ fn looks_like_torn_tail(seed: &Seed, file: usize, pos: usize, bytes: &[u8]) -> b
     matches!(codecx::decode(&bytes[off..]), codecx::Dec::Err(std::io::ErrorKind::UnexpectedEof))
 }
 
-fn check_mutation(rep: &Reporter, seed: &Seed, file: usize, pos: usize, val: u8, st: &ImgStats) {
+fn check_mutation(rep: &Reporter, seed: &Seed, file: usize, pos: usize, val: u8, rbuf: Option<usize>, st: &ImgStats) {
     let mut files = seed.files.clone();
     files[file].1[pos] = val;
     st.opens.fetch_add(1, Ordering::Relaxed);
-    let (run, _) = open_image(&files, &seed.cfg, false);
+    let open_cfg = if rbuf.is_some() { seed.cfg.with_read_buf(rbuf) } else { seed.cfg };
+    let (run, _) = open_image(&files, &open_cfg, false);
     let newest = seed.files.len() - 1;
     let torn_like = looks_like_torn_tail(seed, file, pos, &files[file].1);
     match &run.opened {
         Opened::Panic(m) => {
             st.outcome("panic");
-            rep.report(mut_vio(rep, "open-panics-on-corruption", format!("open panicked: {}", m), seed, file, pos, val));
+            rep.report(mut_vio(rep, "open-panics-on-corruption", format!("open panicked: {}", m), seed, file, pos, val, rbuf));
         }
         Opened::Ok { state, entries } => {
             if *state == seed.model.st && entries.as_ref().ok() == Some(&seed.model.all()) {
@@ -650,6 +684,7 @@ fn check_mutation(rep: &Reporter, seed: &Seed, file: usize, pos: usize, val: u8,
                     file,
                     pos,
                     val,
+                    rbuf,
                 ));
             }
         }
@@ -674,6 +709,7 @@ fn check_mutation(rep: &Reporter, seed: &Seed, file: usize, pos: usize, val: u8,
                         file,
                         pos,
                         val,
+                        rbuf,
                     ));
                     break;
                 }
@@ -766,6 +802,7 @@ fn check_live_reads(rep: &Reporter, seed: &Seed, vals_for: &dyn Fn(u8) -> Vec<u8
                                     file,
                                     pos,
                                     val,
+                                    None,
                                 )),
                                 Err(_) => st.outcome("live-read-refused"),
                                 Ok(v) if v == vec![(*id, payload.clone())] => {
@@ -780,6 +817,7 @@ fn check_live_reads(rep: &Reporter, seed: &Seed, vals_for: &dyn Fn(u8) -> Vec<u8
                                     file,
                                     pos,
                                     val,
+                                    None,
                                 )),
                             }
                         }
@@ -810,12 +848,23 @@ pub fn run_c09(rep: &Reporter, thorough: bool) -> Value {
             v
         }
     };
-    let mut work: Vec<(usize, usize, usize, u8)> = vec![];
+    // recovery under small read buffers (every record then straddles buffer
+    // boundaries; short reads in the middle of a file): one bit flip per byte
+    // (thorough: three values) per buffer size
+    let small_bufs: Vec<usize> = if thorough { vec![1, 16, 64] } else { vec![16] };
+    let mut work: Vec<(usize, usize, usize, u8, Option<usize>)> = vec![];
     for (si, s) in seeds.iter().enumerate() {
         for (fi, f) in s.files.iter().enumerate() {
             for pos in 0..f.1.len() {
                 for v in vals_for(f.1[pos]) {
-                    work.push((si, fi, pos, v));
+                    work.push((si, fi, pos, v, None));
+                }
+                for rb in &small_bufs {
+                    let o = f.1[pos];
+                    let vals: Vec<u8> = if thorough { vec![o ^ 1, o ^ 0x80, o.wrapping_add(1)] } else { vec![o ^ 1] };
+                    for v in vals {
+                        work.push((si, fi, pos, v, Some(*rb)));
+                    }
                 }
             }
         }
@@ -835,8 +884,8 @@ pub fn run_c09(rep: &Reporter, thorough: bool) -> Value {
                     skipped.fetch_add(1, Ordering::Relaxed);
                     continue;
                 }
-                let (si, fi, pos, v) = work[i];
-                check_mutation(rep, &seeds[si], fi, pos, v, &st);
+                let (si, fi, pos, v, rb) = work[i];
+                check_mutation(rep, &seeds[si], fi, pos, v, rb, &st);
             });
         }
     });
@@ -869,6 +918,8 @@ pub fn run_c09(rep: &Reporter, thorough: bool) -> Value {
         "seed_images": seeds.len(),
         "seed_layouts": seeds.iter().map(|s| s.sig.clone()).collect::<Vec<_>>(),
         "single_byte_mutations_opened": work.len(),
+        "of_which_opened_under_small_read_buffers": work.iter().filter(|w| w.4.is_some()).count(),
+        "small_read_buffer_sizes": small_bufs,
         "middle_chunk_removals_opened": missing,
         "live_store_corrupt_then_read": live,
         "replacement_values_per_byte": if thorough { "all 255" } else { "8 bit flips + 0x00, 0xFF, +1" },
@@ -908,7 +959,7 @@ pub fn replay(rep: &Reporter, r: &Value) -> bool {
     match r["engine"].as_str().unwrap_or("") {
         "imagex-tail" => {
             let Some(d) = parse_damage(r["damage"].as_str().unwrap_or("")) else { return false };
-            check_tail(rep, &seed, &d, r["truncate"].as_bool().unwrap_or(true), &st);
+            check_tail_rbuf(rep, &seed, &d, r["truncate"].as_bool().unwrap_or(true), r["read_buf"].as_u64().map(|x| x as usize), &st);
         }
         "imagex-mutate" => {
             let file = r["file"].as_u64().unwrap_or(0) as usize;
@@ -917,7 +968,7 @@ pub fn replay(rep: &Reporter, r: &Value) -> bool {
                 println!("REPLAY the recorded byte position does not exist in the image produced by this tree");
                 return false;
             }
-            check_mutation(rep, &seed, file, pos, r["val"].as_u64().unwrap_or(0) as u8, &st);
+            check_mutation(rep, &seed, file, pos, r["val"].as_u64().unwrap_or(0) as u8, r["read_buf"].as_u64().map(|x| x as usize), &st);
         }
         "imagex-missing" => {
             check_missing_middle(rep, &seed, &st);
